@@ -240,8 +240,6 @@ def name_problems(full: str) -> list[str]:
         out.append("charset")
     if not (name[0] in ALNUM and name[-1] in ALNUM):
         out.append("edge")
-    if len(full) > 253 + 1 + 63:
-        out.append("total-length")
     return out
 
 
@@ -821,7 +819,8 @@ def run_scenario(sc: dict, out: Out, with_driver: bool = True) -> None:
     def fetch_all(body: dict) -> dict[str, Any]:
         return {o: call(S.fetch, key=o, body=Body(body)) for o in others}
 
-    before_others = fetch_all(body0) if judge else {}
+    before0 = merge_patch(body0, patch0) if judge else body0    # what the object would be without this store
+    before_others = fetch_all(before0) if judge else {}
 
     # ---- B. store + fetch -------------------------------------------------------------------------
     rec = rec_dict(sc["record"])
@@ -831,7 +830,8 @@ def run_scenario(sc: dict, out: Out, with_driver: bool = True) -> None:
     if with_driver:
         out.ask("store", ["C16.store", desc, sfx_table([k]), body0, patch0, k, sc["record"]], ["ok", p1] if r[0] == "ok" else r)
     writes = any(d["t"] == "ann" or not d["nowrite"] for d in desc)
-    body1 = merge_patch(body0, p1) if p1 is not None else body0
+    # (a patch corrupted by the scenario is not applied: it would corrupt metadata itself)
+    body1 = merge_patch(body0, p1) if (p1 is not None and not (corrupt or "").startswith("patch-")) else body0
     f1 = call(S.fetch, key=k, body=Body(body1))
     if with_driver:
         out.ask("fetch", ["C16.fetch", desc, sfx_table([k]), body1, k], jsonable(f1))
@@ -846,7 +846,7 @@ def run_scenario(sc: dict, out: Out, with_driver: bool = True) -> None:
             # come from known sharing classes
             out.fail(f"stored record is not read back: stored {want!r}, fetched {got!r}", sig)
         tags["roundtrip"] = True
-        check_isolation(out, sc, S, "store", k, mk, others, drs, body0, body1, before_others, own_names, prefixes, status_leaves, desc, Body)
+        check_isolation(out, sc, S, "store", k, mk, others, drs, before0, body1, before_others, own_names, prefixes, status_leaves, desc, Body)
         if collided:
             tags["collided"] = True
     # ---- C. purge ---------------------------------------------------------------------------------
@@ -870,8 +870,24 @@ def run_scenario(sc: dict, out: Out, with_driver: bool = True) -> None:
         if f2 != ["ok", None]:
             out.fail(f"after purge the record of {k!r} is still fetched: {f2!r}", {"site": "purge", "shape": "record still readable after purge"})
         colliding = any(classify_sharing(mk, (o + "-ofDRS") if drs else o).get("class") != "unknown" for o in others)
-        left = prune(strip_markers(body2))
-        want_left = prune(strip_markers(body_wo_k))
+        anns2 = (body2.get("metadata") or {}).get("annotations") or {}
+        for name in own_names:
+            if name in anns2:
+                out.fail(f"after purge the annotation {name!r} of {k!r} is still on the object", {"site": "purge", "shape": "own annotation left after purge"})
+        for leaf in status_leaves:
+            cont = resolve(body2, leaf.field)
+            if isinstance(cont, dict) and k in cont:
+                out.fail(f"after purge the status record of {k!r} is still on the object", {"site": "purge", "shape": "own status record left after purge"})
+
+        def minus_own(b: dict) -> dict:
+            b = strip_markers(b)
+            a_ = (b.get("metadata") or {}).get("annotations")
+            if isinstance(a_, dict):
+                for name in own_names:      # names shared with another id (v1 of equal safe forms) are this id's as well
+                    a_.pop(name, None)
+            return prune(b)
+        left = minus_own(body2)
+        want_left = minus_own(merge_patch(body_wo_k, patch0))
         if left != want_left and not colliding:
             out.fail("purge leaves something of the handler's record behind (or removes something else): "
                      f"{diff_keys(want_left, left)}", {"site": "purge", "shape": "object differs from the one before the record was stored"})
@@ -899,10 +915,11 @@ def run_scenario(sc: dict, out: Out, with_driver: bool = True) -> None:
         if again and tv is not None:
             out.fail(f"touching twice with the same value patches again: {again!r}", {"site": "touch", "shape": "touch not idempotent"})
         for leaf in ann_leaves:
-            for full in leaf.make_keys(leaf.touch_key, body=Body(body1)):
+            tnames = list(leaf.make_keys(leaf.touch_key, body=Body(body1)))
+            for full in tnames:
                 probs = name_problems(full)
                 if probs and leaf.touch_key == "touch-dummy":
-                    out.fail(f"invalid touch annotation name {full!r}", classify_name(full, leaf.prefix, leaf.touch_key + ("-ofDRS" if drs else ""), "v2", probs))
+                    out.fail(f"invalid touch annotation name {full!r}", classify_name(full, leaf.prefix, leaf.touch_key + ("-ofDRS" if drs else ""), "v2" if full == tnames[0] else "v1", probs))
     # ---- E. clear ---------------------------------------------------------------------------------
     essence_in = copy.deepcopy(body1)
     snapshot = copy.deepcopy(essence_in)
@@ -923,8 +940,11 @@ def run_scenario(sc: dict, out: Out, with_driver: bool = True) -> None:
         for leaf in status_leaves:
             if resolve(cleared, leaf.field) is not MISSING:
                 out.fail(f"clear() keeps the storage's own status field {'.'.join(leaf.field)}", {"site": "clear", "shape": "own field kept"})
-        if cleared.get("spec") != snapshot.get("spec") or (cleared.get("metadata") or {}).get("labels") != (snapshot.get("metadata") or {}).get("labels"):
-            out.fail("clear() changed spec or labels", {"site": "clear", "shape": "foreign stanza changed"})
+        own_fields = [list(l.field) for l in status_leaves]
+        if without_own(cleared, prefixes, own_fields) != without_own(snapshot, prefixes, own_fields):
+            out.fail("clear() changed something that is not the storage's own: "
+                     f"{diff_keys(without_own(snapshot, prefixes, own_fields), without_own(cleared, prefixes, own_fields))}",
+                     {"site": "clear", "shape": "foreign stanza changed"})
     # ---- F. diff-base storage -----------------------------------------------------------------------
     D = build_dstorage(sc["dstorage"])
     ddesc = ddescribe(D)
@@ -956,10 +976,10 @@ def run_scenario(sc: dict, out: Out, with_driver: bool = True) -> None:
             dstatus = [l for l in leaves(D) if isinstance(l, diffbase.StatusDiffBaseStorage)]
             check_foreign(out, "diffbase-store", merge_patch(body0, pin), body6, dprefixes, dstatus, touch=False)
             # the essence built from the patched object does not contain the storage's own annotations
-            built = call(D.build, body=Body(body6))
-            if built[0] == "ok":
-                banns = (built[1].get("metadata") or {}).get("annotations") or {}
-                for leaf in dann:
+            for leaf in dann:
+                built = call(leaf.build, body=Body(body6))
+                if built[0] == "ok":
+                    banns = (built[1].get("metadata") or {}).get("annotations") or {}
                     for full in leaf.make_keys(leaf.key, body=Body(body6)):
                         if full in banns:
                             out.fail(f"build() keeps the diff-base's own annotation {full!r} in the essence", {"site": "diffbase.build", "shape": "own annotation kept"})
@@ -1055,38 +1075,30 @@ def set_path(d: dict, path: list[str], value: Any) -> None:
     d[path[-1]] = value
 
 
-def check_foreign(out: Out, op: str, before: dict, after: dict, prefixes: list[str], status_leaves: list, touch: bool) -> None:
-    """Everything that is not the storage's own (its prefix, its status fields) is byte-identical."""
-    ba = (before.get("metadata") or {}).get("annotations") or {}
-    aa = (after.get("metadata") or {}).get("annotations") or {}
-    for name in set(ba) | set(aa):
-        if any(name.startswith(px + "/") for px in prefixes):
-            continue
-        if ba.get(name, MISSING) != aa.get(name, MISSING):
-            out.fail(f"{op} changes the foreign annotation {name!r}: {ba.get(name)!r} → {aa.get(name)!r}",
-                     {"site": op, "shape": "annotation outside the own prefix changed"})
-    for part in ("apiVersion", "kind", "spec"):
-        if before.get(part, MISSING) != after.get(part, MISSING):
-            out.fail(f"{op} changes .{part}", {"site": op, "shape": "foreign stanza changed"})
-    bm = {k: v for k, v in (before.get("metadata") or {}).items() if k != "annotations"}
-    am = {k: v for k, v in (after.get("metadata") or {}).items() if k != "annotations"}
-    if bm != am:
-        out.fail(f"{op} changes metadata outside annotations: {diff_keys(bm, am)}", {"site": op, "shape": "foreign stanza changed"})
-    own_fields = [list(getattr(l, "touch_field" if touch and hasattr(l, "touch_field") else "field")) for l in status_leaves]
-    own_fields += [list(l.field) for l in status_leaves]
-    b2, a2 = copy.deepcopy(before), copy.deepcopy(after)
+def without_own(body: dict, prefixes: list[str], own_fields: list[list[str]]) -> dict:
+    """The object minus everything that belongs to the storages (their prefix, their fields), pruned."""
+    b = copy.deepcopy(body)
+    anns = (b.get("metadata") or {}).get("annotations")
+    if isinstance(anns, dict):
+        for name in list(anns):
+            if any(name.startswith(px + "/") for px in prefixes):
+                del anns[name]
     for f in own_fields:
-        for d in (b2, a2):
-            parent = resolve(d, f[:-1])
-            if isinstance(parent, dict):
-                parent.pop(f[-1], None)
-    for part in set(b2) | set(a2):
-        if part in ("metadata",):
-            continue
-        if prune(b2.get(part, MISSING) if isinstance(b2.get(part, MISSING), dict) else b2.get(part, MISSING)) != \
-                prune(a2.get(part, MISSING) if isinstance(a2.get(part, MISSING), dict) else a2.get(part, MISSING)):
-            out.fail(f"{op} changes .{part} outside the storage's own field: {diff_keys(b2.get(part), a2.get(part))}",
-                     {"site": op, "shape": "field outside the own field changed"})
+        parent = resolve(b, f[:-1])
+        if isinstance(parent, dict):
+            parent.pop(f[-1], None)
+    return prune(b)
+
+
+def check_foreign(out: Out, op: str, before: dict, after: dict, prefixes: list[str], status_leaves: list, touch: bool) -> None:
+    """Everything that is not the storage's own (its prefix, its status fields) is identical."""
+    own_fields = [list(l.field) for l in status_leaves]
+    own_fields += [list(l.touch_field) for l in status_leaves if hasattr(l, "touch_field")]
+    b, a = without_own(before, prefixes, own_fields), without_own(after, prefixes, own_fields)
+    if b != a:
+        d = diff_keys(b, a)
+        shape = "annotation outside the own prefix changed" if any("/metadata/annotations" in x for x in d) else "foreign stanza changed"
+        out.fail(f"{op} changes data that is not the storage's own: {d}", {"site": op, "shape": shape})
 
 
 def check_isolation(out: Out, sc: dict, S: Any, op: str, k: str, mk: str, others: list[str], drs: bool, before: dict, after: dict,
